@@ -192,7 +192,7 @@ Definition num_fn (cs : list crit) (t : Table) : nat := count_status FN (get_gro
    analyze() raises (its index is not a MultiIndex): explicit error value. *)
 Definition checked {A} (t : Table) (v : A) : option A := match t with [] => None | _ => Some v end.
 
-(* filter / get (**kwargs): a pair of rows is kept when, for every key, EITHER row matches *)
+(* filter / get (kwargs): a pair of rows is kept when, for every key, EITHER row matches *)
 Definition opt_ok (c : crit) (o : option Row) : bool := match o with Some r => crit_ok c r | None => false end.
 Definition entry_ok (cs : list crit) (e : Entry) : bool :=
   forallb (fun c => opt_ok c (e_gt e) || opt_ok c (e_est e)) cs.
@@ -331,7 +331,7 @@ Definition get_confusion_matrix (nc : nat) (t : Table) : cm_res :=
        end.
 
 (* ------------------------------------------------------------------------------------------ *)
-(* analyze(**kwargs, distance=...)                                                             *)
+(* analyze(kwargs, distance=...)                                                             *)
 (* ------------------------------------------------------------------------------------------ *)
 Record Analysis := mkAnalysis {
   a_ratio : list Ratios;
@@ -491,13 +491,19 @@ Definition check_distance (t : Table) (obs : option (list Q)) : bool :=
   opt_all2 (list_all2 (fun m i => closerel m (i * i))) (checked t (calculate_distance2 t)) obs.
 
 (* observed summary: (average, rms, std, max, min) *)
-Definition summary_matches (yaw : bool) (P : Q) (s : Summary) (o : Q * Q * Q * Q * Q) : bool :=
+Definition OSummary := (Q * Q * Q * Q * Q)%type.
+Definition summary_matches (s : Summary) (o : OSummary) : bool :=
   let '(avg, rms, std, mx, mn) := o in
-  close6 (s_avg s) avg && closerel (s_ms s) (rms * rms) && close6 (s_var s) (std * std) &&
+  close6 (s_avg s) avg && closerel (s_ms s) (rms * rms) && closerel (s_var s) (std * std) &&
   close6 (s_max s) mx && close6 (s_min s) mn.
+(* outer None: not compared (yaw column of a frame that has a pair whose yaw difference is +-pi up to rounding:
+   the branch of the wrap then depends on the rounding of the subtraction; the error arrays of such frames are
+   still compared, modulo 2 pi at +-pi, by check_errors) *)
+Definition osummary_matches (m : option Summary) (o : option (option OSummary)) : bool :=
+  match o with None => true | Some o' => opt_all2 summary_matches m o' end.
 
-Definition check_summaries (P : Q) (ntargets : nat) (t : Table) (obs : option (list (list (option (Q * Q * Q * Q * Q))))) : bool :=
-  opt_all2 (list_all2 (list_all2 (opt_all2 (summary_matches false P))))
+Definition check_summaries (P : Q) (ntargets : nat) (t : Table) (obs : option (list (list (option (option OSummary))))) : bool :=
+  opt_all2 (list_all2 (list_all2 osummary_matches))
            (checked t (map (fun ol => map (fun c => summarize_error P ol c t) analysis_columns) (all_labels ntargets)))
            obs.
 
@@ -522,14 +528,14 @@ Definition check_cm (nc : nat) (t : Table) (obs : option (option (list (list nat
   | _ => cm_matches (get_confusion_matrix nc t) obs
   end.
 
-(* analyze: obs None = empty result; the yaw summaries near +-pi may differ by the branch taken on rounding, so the
-   harness avoids exact +-pi differences in the cases whose analysis it compares (see C19.py) *)
+(* analyze: obs None = empty result *)
+Definition OAnalysis := (list (Q * Q * Q * Q) * list (list (option (option OSummary))) * option (option (list (list nat))))%type.
 Definition check_analyze (P : Q) (ntargets nc : nat) (cs : list crit) (dist : option (Q * Q)) (t : Table)
-           (obs : option (list (Q * Q * Q * Q) * list (list (option (Q * Q * Q * Q * Q))) * option (option (list (list nat))))) : bool :=
-  opt_all2 (fun (a : Analysis) (o : list (Q * Q * Q * Q) * list (list (option (Q * Q * Q * Q * Q))) * option (option (list (list nat)))) =>
+           (obs : option OAnalysis) : bool :=
+  opt_all2 (fun (a : Analysis) (o : OAnalysis) =>
               let '(r, e, c) := o in
               list_all2 ratios_match (a_ratio a) r &&
-              list_all2 (list_all2 (opt_all2 (summary_matches false P))) (a_error a) e &&
+              list_all2 (list_all2 osummary_matches) (a_error a) e &&
               cm_matches (a_cm a) c)
            (analyze P ntargets nc cs dist t) obs.
 
